@@ -158,7 +158,7 @@ def check_case(contract, fn, kwargs, module_globals):
     fail = None
     try:
         for p_, v_ in old.items():
-            if p_ not in contract.modifies and p_ in after and norm(after[p_]) != norm(v_):
+            if p_ not in contract.modifies and p_ not in contract.native_frame_skip and p_ in after and norm(after[p_]) != norm(v_):
                 fail = dict(kind="frame", clause="parameter %s is not in `modifies` but was changed" % p_)
         for p_ in old:
             if p_ not in contract.modifies:
